@@ -522,13 +522,13 @@ def run(rep, tier, seed, only=None):
         rep.add(lean_lemmas("C01", ["plus_prescription_restricted"], tier))
     rep.assume(
         "A-quad: scipy.integrate.quad returns the integral of the integrand it is given over the interval it is given (accuracy / subdivision limits not covered)",
-        "A-eko: evaluate_x / log_evaluate_x(u, basis.areas_representation) is the value of that basis function at u; its support is the union of its areas (sorted borders)",
+        "A-eko: evaluate_x / log_evaluate_x(u, basis.areas_representation) is the value of that basis function at u; its support is the union of its areas (sorted borders); bounded stand-in for continuity / partition of unity: every x on six grids (eko's real evaluate_x run symbolically)",
         "L-plus: for C = reg + [sing]_+ + delta_c delta(1-z) with loc(x) = delta_c - int_0^x sing (C03), the distribution acting on a test function supported in (x,1] is int_x^1 reg g + int_x^1 sing (g - g(1)) + loc(x) g(1) -- machine-checked by Lean 4 + Mathlib in the thorough tier (lemmas/Lemmas.lean, theorem plus_prescription_restricted); an assumption in the quick tier",
         "loop lemmas by AST (append-only accumulators / cells written once / += accumulation) lift the instantiations at 0..3 elements to every length",
         "the factor x of the left-hand side is the convolution point of the scheme (C09 / sec_convolution_point)",
     )
     rep.stub("scipy.integrate.quad -> recording stub", "eko.interpolation.(log_)evaluate_x and BasisFunction -> uninterpreted p_j(u)", "Combiner / coefficient objects -> abstract kernels (compute_local)", "conv.convolution / convolve_vector replaced by their contracts in their callers")
-    for nm, f in (("quad_kers", sec_quad_kers), ("convolution", sec_convolution), ("vector", sec_convolve_vector), ("compute_local", sec_compute_local), ("drop_empty", sec_drop_empty), ("point", sec_convolution_point), ("weightsframe", H.weights_frame), ("schemedispatch", lambda r: H.scheme_families(r, tier)), ("distributions", lambda r: __import__("contracts.c03", fromlist=["x"]).sec_sites(r, tier))):
+    for nm, f in (("quad_kers", sec_quad_kers), ("convolution", sec_convolution), ("vector", sec_convolve_vector), ("compute_local", sec_compute_local), ("drop_empty", sec_drop_empty), ("point", sec_convolution_point), ("weightsframe", H.weights_frame), ("aeko", H.eko_basis_standin), ("schemedispatch", lambda r: H.scheme_families(r, tier)), ("distributions", lambda r: __import__("contracts.c03", fromlist=["x"]).sec_sites(r, tier))):
         if only and only not in nm:
             continue
         rep.add(guarded(f"C01/{nm}", lambda f=f: (f(rep), [])[1]))
